@@ -193,6 +193,21 @@ def enum_grammars(vs, ts, maxlen, maxprods):
             yield mk(V(vs[0]), sub)
 
 
+def random_nullable_heavy(rng, nv=None):
+    """3-5 variables, several of them nullable (directly or through other nullable variables), bodies mixing nullable variables and a
+    few terminals: the shape on which the counter-based analyses (generating / nullable / generate_epsilon) do real work"""
+    nv = nv or rng.choice([3, 4, 4, 5]); vs = ['S', 'A', 'B', 'C', 'D'][:nv]; prods = set()
+    for v in vs[1:]:
+        r = rng.random()
+        if r < 0.5: prods.add((V(v), ()))
+        if r > 0.3: prods.add((V(v), tuple(rng.choice([V(x) for x in vs[1:]] + [T('a'), T('b')]) for _ in range(rng.choice([1, 1, 2])))))
+    for _ in range(rng.choice([1, 2, 3])):
+        k = rng.choice([1, 2, 2, 3]); pool = [V(x) for x in vs[1:]] * 3 + [T('a'), T('b'), V('S')]
+        prods.add((V('S'), tuple(rng.choice(pool) for _ in range(k))))
+    if rng.random() < 0.4: prods.add((V(rng.choice(vs[1:])), tuple(rng.choice([V(x) for x in vs[1:]]) for _ in range(2))))
+    return mk(V('S'), prods)
+
+
 def random_grammar(rng, vs, ts, maxlen, nprods):
     syms = [V(v) for v in vs] + [T(t) for t in ts]
     prods = set()
